@@ -59,6 +59,17 @@ PROGRAMS = {
         S("addi", "a0", "a0", 1, lab="helper+helper2"), S("addi", "a0", "a0", 2), S("ret"),
         S("li", "t0", 3, lab="worker+aaa_worker"), S("add", "a0", "a0", "t0"), S("li", "s1", 1), S("ret"),
     ],
+    "shared-entry-aliases": [     # an entry with two labels that belongs to two functions (fall-through from the one before)
+        S("li", "a0", 1, lab="start"), S("call", "@fn_a"), S("call", "@fn_b"), S("call", "@fn_c"), S("li", "a7", 10), S("ecall"),
+        S("addi", "a0", "a0", 1, lab="fn_a"),
+        S("addi", "a0", "a0", 2, lab="fn_b+fn_c"), S("li", "t0", 4), S("add", "a0", "a0", "t0"), S("ret"),
+    ],
+    "base-registers": [           # memory accessed through saved and temporary base registers (not sp)
+        S("li", "a0", 1, lab="start"), S("call", "@f"), S("call", "@g"), S("li", "a7", 10), S("ecall"),
+        S("sw", "s1", ("m", 0, "s0"), lab="f"), S("li", "s1", 7), S("add", "a0", "a0", "s1"), S("lw", "s1", ("m", 0, "s0")), S("ret"),
+        S("mv", "s2", "a0", lab="g"), S("sw", "t0", ("m", 0, "s2")), S("lw", "t1", ("m", 4, "s2")), S("sw", "s3", ("m", 8, "t2")),
+        S("li", "s3", 1), S("lw", "s3", ("m", 8, "t2")), S("add", "a0", "t1", "s3"), S("ret"),
+    ],
     "two-functions": [
         S("li", "a0", 3, lab="start"), S("jal", "ra", "@g"), S("mv", "s2", "a0"), S("call", "@h"), S("add", "a0", "a0", "s2"),
         S("li", "a7", 10), S("ecall"),
@@ -137,7 +148,16 @@ def render(prog, style=None, regmap=None, labmap=None):
         g = (lambda k, d: style.get(k, d) if on else d)
         st = expand(st0, g("pseudo", "keep") if g("pseudo", "keep") != "keep" else False)
         sep = {"comma": ", ", "space": " ", "tabs": ",\t", "wide": "  ,  "}[g("sep", "comma")]
-        mn = st["mn"].upper() if g("case", "lower") == "upper" else st["mn"]
+        cs = g("case", "lower")
+        mn = st["mn"]
+        if cs == "upper":
+            mn = mn.upper()
+        elif cs == "capital":
+            mn = mn[:1].upper() + mn[1:]
+        elif cs == "mixed":          # every letter chosen on its own: aDdI, lW, eCaLl
+            mn = "".join(ch.upper() if i % 2 == 1 else ch for i, ch in enumerate(mn))
+        elif cs == "tail":           # only the last letter
+            mn = mn[:-1] + mn[-1:].upper()
         ops = []
         for o in st["ops"]:
             if o["k"] == "r":
